@@ -52,16 +52,20 @@ func (r *recProc) Invoke(msgs []actor.Envelope) {
 	}
 	vsched.Yield("invoke")
 	for _, m := range msgs {
-		r.got = append(r.got, m.Msg.(int))
+		n, ok := m.Msg.(int)
+		if !ok {
+			n = -1 // an envelope nobody pushed (C01's verdict)
+		}
+		r.got = append(r.got, n)
 	}
 	vsched.Yield("invoke'")
 	r.active--
 }
 
 type verdict struct {
-	c02, c03, other string
-	trace           []string
-	steps           int
+	c01, c02, c03, other string
+	trace                []string
+	steps                int
 }
 
 // runInbox executes one schedule of: S sender threads pushing Per messages each into a real
@@ -101,6 +105,27 @@ func runInbox(c Cfg, choose vsched.Chooser) verdict {
 	}
 	if p.overlap {
 		v.c02 = "two invocations of Invoke overlapped"
+	}
+	// C01 at the inbox: what Invoke saw is what was pushed - nothing invented or duplicated, and each
+	// sender's messages in its own order (whatever was delivered; a loss shows as C03's verdict)
+	seen := map[int]bool{}
+	lastOf := map[int]int{}
+	for _, m := range p.got {
+		snd, seq := m/100, m%100
+		if snd < 0 || snd >= c.Senders || seq >= c.Per || m < 0 {
+			v.c01 = fmt.Sprintf("Invoke received %d, which no sender pushed; got=%v", m, p.got)
+			break
+		}
+		if seen[m] {
+			v.c01 = fmt.Sprintf("message %d was handed to Invoke twice; got=%v", m, p.got)
+			break
+		}
+		seen[m] = true
+		if l, ok := lastOf[snd]; ok && seq < l {
+			v.c01 = fmt.Sprintf("sender %d pushed %d before %d, Invoke saw them the other way round; got=%v", snd, m, snd*100+l, p.got)
+			break
+		}
+		lastOf[snd] = seq
 	}
 	if len(p.got) != c.Senders*c.Per {
 		v.c03 = fmt.Sprintf("every thread has finished (nothing is runnable) and the started inbox rests with %d of %d accepted messages unprocessed", c.Senders*c.Per-len(p.got), c.Senders*c.Per)
@@ -219,6 +244,15 @@ func randomLeg(t *testing.T, name string, pick func(verdict) string, nt func(sw,
 func TestSerialRandom(t *testing.T) {
 	randomLeg(t, "TestSerialRandom", func(v verdict) string { return v.c02 },
 		func(sw, ct int, win, bs bool) bool { return sw >= 2 && ct >= 2 })
+}
+
+func TestDeliveryRandom(t *testing.T) {
+	randomLeg(t, "TestDeliveryRandom", func(v verdict) string { return v.c01 },
+		func(sw, ct int, win, bs bool) bool { return sw >= 2 && ct >= 2 })
+}
+
+func TestDeliveryDFS(t *testing.T) {
+	dfsLeg(t, "TestDeliveryDFS", func(v verdict) string { return v.c01 }, func(sw, ct int, win, bs bool) bool { return sw >= 2 && ct >= 2 })
 }
 
 func TestWakeupRandom(t *testing.T) {
@@ -464,6 +498,9 @@ func init() {
 	}
 	c02 := func(v verdict) string { return v.c02 }
 	c03 := func(v verdict) string { return v.c03 }
+	c01 := func(v verdict) string { return v.c01 }
+	vh.RegisterReplay("TestDeliveryRandom", inbox(c01))
+	vh.RegisterReplay("TestDeliveryDFS", inbox(c01))
 	vh.RegisterReplay("TestSerialRandom", inbox(c02))
 	vh.RegisterReplay("TestSerialDFS", inbox(c02))
 	vh.RegisterReplay("TestWakeupRandom", inbox(c03))
